@@ -682,14 +682,9 @@ func (x *Engine) havocLoc(st, pre *State, m *Clause, env map[string]Val, pkg *ss
 			}
 		case "all":
 			// all(Type.field): whole field array
-			if n.Args[1].Op == "sel" && n.Args[1].Args[0].Op == "ident" {
-				if tn, ok := pkg.Members[n.Args[1].Args[0].Name].(*ssa.Type); ok {
-					_, f := findField(tn.Type(), n.Args[1].Name, 0)
-					if f != nil {
-						x.havocKey(st, x.fieldKey(tn.Type(), f))
-						return
-					}
-				}
+			if k, ok := x.allFieldKey(pkg, n.Args[1]); ok {
+				x.havocKey(st, k)
+				return
 			}
 		}
 	}
@@ -824,9 +819,8 @@ func (x *Engine) modKeyStatic(fs *FuncSpec, m *Clause) (keys []string, ok bool) 
 				return keys, true
 			}
 		case "all":
-			if tn, ok := pkg.Members[n.Args[1].Args[0].Name].(*ssa.Type); ok {
-				_, f := findField(tn.Type(), n.Args[1].Name, 0)
-				return []string{x.fieldKey(tn.Type(), f)}, true
+			if k, ok := x.allFieldKey(pkg, n.Args[1]); ok {
+				return []string{k}, true
 			}
 		}
 		return nil, false
@@ -1112,6 +1106,22 @@ func (x *Engine) closureSummary(fr *Frame, st *State, v Val) {
 }
 
 // typeByNode resolves `T` or `pkg.T` to a named type.
+// allFieldKey: the state component named by all(T.f) / all(pkg.T.f) — field f of every object of type T.
+func (x *Engine) allFieldKey(pkg *ssa.Package, sel *Node) (string, bool) {
+	if sel == nil || sel.Op != "sel" || len(sel.Args) == 0 {
+		return "", false
+	}
+	tn := x.typeByNode(pkg, sel.Args[0])
+	if tn == nil {
+		return "", false
+	}
+	_, f := findField(tn.Type(), sel.Name, 0)
+	if f == nil {
+		return "", false
+	}
+	return x.fieldKey(tn.Type(), f), true
+}
+
 func (x *Engine) typeByNode(pkg *ssa.Package, n *Node) *ssa.Type {
 	if n.Op == "ident" && pkg != nil {
 		tn, _ := pkg.Members[n.Name].(*ssa.Type)
@@ -1130,6 +1140,19 @@ func (x *Engine) typeByNode(pkg *ssa.Package, n *Node) *ssa.Type {
 		cnt := 0
 		for _, p := range x.prog.AllPackages() {
 			if isRepoPkg(p.Pkg) {
+				if tn, ok := p.Members[n.Name].(*ssa.Type); ok {
+					found = tn
+					cnt++
+				}
+			}
+		}
+		if cnt == 1 {
+			return found
+		}
+		// a type of another module or the standard library (list.Element): by package name, if unique
+		found, cnt = nil, 0
+		for _, p := range x.prog.AllPackages() {
+			if p.Pkg.Name() == n.Args[0].Name && !isRepoPkg(p.Pkg) {
 				if tn, ok := p.Members[n.Name].(*ssa.Type); ok {
 					found = tn
 					cnt++
